@@ -137,6 +137,17 @@ Inductive gcase :=
 | GAlloc (t : ty) (known : bool) (inp : list byte) (al : list N)   (* sizes announced to on_before_alloc_mem, in order *)
 | GPeak (t : ty) (known : bool) (inp : list byte) (peak : N).     (* measured peak of live heap bytes during the decode *)
 
+(* number of modelled reservations: each is one allocator request of the implementation, which may
+   carry a header the model does not describe (the two reference counts of Rc/Arc, 16 bytes, plus
+   padding to the alignment) *)
+Fixpoint real_count (evs : list event) : N :=
+  match evs with
+  | [] => 0
+  | EHook (HReal _) :: r => 1 + real_count r
+  | _ :: r => real_count r
+  end.
+Definition peak_bound (evs : list event) : N := 2 * real_sum evs + 32 * real_count evs + 4096.
+
 Definition g_check (c : gcase) : bool :=
   match c with
   | GEnc t v out =>
@@ -147,7 +158,7 @@ Definition g_check (c : gcase) : bool :=
   | GDec t known inp r => dres_eqb (model_decode t known inp) r
   | GRun t known ls inp r => rres_eqb ls (model_run t known ls inp) r
   | GAlloc t known inp al => ns_eqb (allocs (snd (runt (dec t) known inp))) al
-  | GPeak t known inp peak => peak <=? 2 * real_sum (snd (runt (dec t) known inp)) + 4096
+  | GPeak t known inp peak => peak <=? peak_bound (snd (runt (dec t) known inp))
   end.
 
 Inductive gmodel := MEnc (r : eres (list byte)) | MDec (r : dres) | MRun (r : rres) | MAlloc (l : list N).
@@ -157,5 +168,5 @@ Definition g_model (c : gcase) : gmodel :=
   | GDec t known inp _ => MDec (model_decode t known inp)
   | GRun t known ls inp _ => MRun (model_run t known ls inp)
   | GAlloc t known inp _ => MAlloc (allocs (snd (runt (dec t) known inp)))
-  | GPeak t known inp _ => MAlloc [real_sum (snd (runt (dec t) known inp))]
+  | GPeak t known inp _ => MAlloc [real_sum (snd (runt (dec t) known inp)); real_count (snd (runt (dec t) known inp))]
   end.
